@@ -166,6 +166,12 @@ class Rec:
         st = self.task_act.get(t)
         if st:
             return 'A:%d' % st[-1]
+        # a run loop that is no longer the bus's _runloop_task (stop() forgot it, or _start() replaced it while it was still alive: G3)
+        co = t.get_coro() if t is not None else None
+        if getattr(co, '__qualname__', '').endswith('EventBus._run_loop') and getattr(co, 'cr_frame', None) is not None:
+            slf = co.cr_frame.f_locals.get('self')
+            if self.bus_by_id.get(id(slf)) is slf:
+                return 'RL:' + slf.name
         a = _CUR_ACT.get()
         if a and a in self.open:       # a helper task spawned by an activation that is still running
             return 'A:%d' % a
